@@ -74,3 +74,17 @@ def _c06_dead_end(v):
 def _c11_noop(v):
     m = v["mech"]
     return v["oracle"] in ("middle-text", "invented-leaf", "delete-left-text") and m.get("noop") is True and m.get("flexible") is False
+
+
+@predicate("C04-add-node-mark-invert-inexact")
+def _c04_node_mark(v):
+    m = v["mech"]
+    return v["oracle"] in ("undo", "single-undo") and m.get("step") == "AddNodeMarkStep" and not m.get("failed") \
+        and not m.get("already_present") and (m.get("displaced", 0) >= 2 or m.get("asymmetric") is True)
+
+
+@predicate("C04-structure-around-leaf-slice")
+def _c04_structure_leaf(v):
+    m = v["mech"]
+    return v["oracle"] in ("undo", "single-undo") and m.get("step") == "ReplaceAroundStep" and m.get("failed") is True \
+        and m.get("structure") is True and m.get("slice_has_leaf") is True
